@@ -68,13 +68,19 @@ RULE = (
     "fraction or a multiple of the read buffer limit (read_bufsize 2 ... 65536), under Content-Length, chunked (one "
     "chunk per member, one chunk, arbitrary chunks) and until-EOF framing: 8 hand-written streams with every single "
     "cut, and about 8 % of the seeded scenarios with cut sets at / around member ends (probes multi_member_body, "
-    "multi_member_zstd)."
+    "multi_member_zstd). Early responses (the peer answers before the client has called set_response_params(), e.g. "
+    "while the request body is still being written): the first k reads - one, two, a drawn number, all of them - are "
+    "handed to the real ResponseHandler while it has no response parser yet and set_response_params() follows them; "
+    "every response stream with every single cut (all reads early / the first read early) and about a third of the "
+    "seeded client scenarios, k drawn per cut set; the outcomes are compared with whole and byte-at-a-time delivery "
+    "like all others (probes early_response, early_response_in_several_reads, early_deliveries)."
 )
 COMPONENTS = {
     "real": ["web_protocol.RequestHandler (via web.Server)", "client_proto.ResponseHandler", "http_parser (Python) request and "
              "response parsers, HttpPayloadParser", "streams.StreamReader", "web_request.BaseRequest"],
     "stub": ["network (SimNet explicit cut lists)", "application (recording handler / recording consumer)",
-             "upgraded protocol (byte recorder installed through protocol.set_parser)"],
+             "upgraded protocol (byte recorder installed through protocol.set_parser)",
+             "request side of the client (a forwarding shim decides when set_response_params() is called)"],
 }
 ASSUMPTIONS = [
     "the outcome class of a rejection is {limit hit, other}; which exact error text is produced may depend on where the "
@@ -340,6 +346,13 @@ def enumerate_cases(tier, seed):
                 for b in range(0, total, block):
                     doubles.append({"side": side, "stream": s, "eof": eof, "limits": lim, "mode": "double", "cuts": None,
                                     "block": [b, min(block, total - b)], "strict_class": strict})
+    # early responses (the peer answers while the request is still being written): every read of the stream, or
+    # only the first one, reaches the ResponseHandler before set_response_params() has created its parser -
+    # every single cut of every response stream
+    for side, s, eof, acc in [("client", s, e, False) for s, e in CLIENT_STREAMS] + [x for x in xs if x[0] == "client"]:
+        for k in (-1, 1):
+            yield {"side": side, "stream": s, "eof": eof, "limits": LIMIT_SETS[0], "mode": "single", "cuts": None,
+                   "block": [0, len(s)], "strict_class": True, "accept_upgrade": acc, "early": k}
     # every stream has had its single cuts (and whole / byte-at-a-time delivery, which every run includes): now the pairs
     yield from doubles
     yield from x_doubles
@@ -548,8 +561,26 @@ def gen(rng, tier, index):
     scn = _gen_plain(rng, tier, index)
     # drawn last, so that every other scenario is what it was before these were added
     if rng.random() < _M_SHARE:
-        return _gen_m(rng)
+        scn = _gen_m(rng)
+    if rng.random() < _EARLY_SHARE and scn["side"] == "client":
+        scn = dict(scn, early=_gen_early(rng, scn["cuts"]))
     return scn
+
+
+_EARLY_SHARE = 0.35  # share of the seeded CLIENT scenarios (about a third of all) with an early response
+
+
+def _gen_early(rng, cut_sets):
+    """Early response: the peer answers before the client has got as far as ClientResponse.start(), so the first
+    k reads reach the real ResponseHandler while its response parser does not exist yet (they wait in the
+    protocol's own buffer) and set_response_params() is called after them. -> k per cut set (0 = parser first,
+    -1 = every read of the response arrives before the parser)."""
+    out = []
+    for cs in cut_sets:
+        r = rng.random()
+        nreads = len(cs) + 1
+        out.append(-1 if r < 0.3 else 2 if r < 0.5 else 1 if r < 0.6 else 0 if r < 0.7 else rng.randint(1, nreads))
+    return out
 
 
 def _gen_plain(rng, tier, index):
@@ -605,9 +636,37 @@ def _gen_plain(rng, tier, index):
 
 
 def shrink(scn):
+    """Candidates of `_shrink0`; the per-cut-set list of an early response (`early`) follows the cut sets."""
+    early = scn.get("early")
+    if not isinstance(early, list):
+        yield from _shrink0(scn)
+        return
+    if scn["mode"] != "list":
+        return
+    # the response arrives after the parser exists, as in every other scenario / under fewer cut sets
+    yield {k: v for k, v in scn.items() if k != "early"}
+    for i, k in enumerate(early):
+        if k != 0 and len(early) > 1:
+            yield dict(scn, early=[0] * i + [k] + [0] * (len(early) - i - 1))
+    for c in _shrink0(scn):
+        pick = c.pop("_pick", None)
+        if pick is not None:
+            c["early"] = [early[pick]]
+        elif len(c["cuts"]) == len(early):
+            c["early"] = list(early)
+        else:
+            continue
+        yield c
+    for i, k in enumerate(early):
+        if k > 2:
+            yield dict(scn, early=early[:i] + [2] + early[i + 1:])
+
+
+def _shrink0(scn):
     if scn["mode"] != "list":
         return
     cuts = scn["cuts"]
+    tag = isinstance(scn.get("early"), list)
     m = scn.get("m")
     if m is not None:
         # fewer members, no neighbours in the pipeline, plainer framing / data; offsets are kept where they still exist
@@ -627,7 +686,7 @@ def shrink(scn):
             yield _m_scenario(m2, scn["limits"], [[c for c in cs if 0 < c < n2] for cs in cuts])
         if len(cuts) > 1:
             for i in range(len(cuts)):
-                yield dict(scn, cuts=[cuts[i]], block=[0, 1])
+                yield dict(scn, cuts=[cuts[i]], block=[0, 1], **({"_pick": i} if tag else {}))
         for ci, cs in enumerate(cuts):
             if len(cs) > 0:
                 for j in range(len(cs)):
@@ -653,7 +712,7 @@ def shrink(scn):
         yield dict(scn, limits=dict(LIMIT_SETS[0]))
     if len(cuts) > 1:
         for i in range(len(cuts)):
-            yield dict(scn, cuts=[cuts[i]], block=[0, 1])
+            yield dict(scn, cuts=[cuts[i]], block=[0, 1], **({"_pick": i} if tag else {}))
     for ci, cs in enumerate(cuts):
         if len(cs) > 1:
             for j in range(len(cs)):
@@ -712,6 +771,40 @@ class _Writer(asyncio.Protocol):
 
     def connection_lost(self, exc):
         self.lost = True
+
+
+class _EarlyShim(asyncio.Protocol):
+    """Sits between the transport and the real ResponseHandler and stands for the request side of the client
+    (ClientResponse.start()): it calls set_response_params() only after the first `k` reads have been handed to
+    the handler, i.e. the response (or its beginning) is early.  Every event is forwarded unchanged."""
+
+    def __init__(self, proto, k, params):
+        self.proto, self.k, self.params = proto, k, params
+        self.reads = 0
+        self.armed = False
+
+    def arm(self):
+        if not self.armed:
+            self.armed = True
+            self.proto.set_response_params(**self.params)
+
+    def data_received(self, data):
+        self.proto.data_received(data)
+        self.reads += 1
+        if self.reads >= self.k:
+            self.arm()
+
+    def eof_received(self):
+        return self.proto.eof_received()
+
+    def connection_lost(self, exc):
+        self.proto.connection_lost(exc)
+
+    def pause_writing(self):
+        self.proto.pause_writing()
+
+    def resume_writing(self):
+        self.proto.resume_writing()
 
 
 class _UpgradedSink:
@@ -864,10 +957,22 @@ def _client_outcomes(w, scn, cut_sets):
     accept_upgrade = bool(scn.get("accept_upgrade"))
     data = G.enc(scn["stream"])
     outcomes = []
-    for cs in cut_sets:
+    early = scn.get("early")
+    for ci, cs in enumerate(cut_sets):
         proto = ResponseHandler(loop)
-        proto.set_response_params(read_until_eof=True, max_line_size=lim["max_line_size"], max_field_size=lim["max_field_size"],
-                                  max_headers=lim["max_headers"], read_bufsize=lim["read_bufsize"])
+        params = dict(read_until_eof=True, max_line_size=lim["max_line_size"], max_field_size=lim["max_field_size"],
+                      max_headers=lim["max_headers"], read_bufsize=lim["read_bufsize"])
+        # early response: number of reads that reach the handler before its parser exists (a list goes with the
+        # scenario's cut sets, whole delivery is then early and byte-at-a-time is not; a number applies to all)
+        if isinstance(early, list):
+            k = 1 if ci == 0 else 0 if ci == 1 else early[ci - 2] if ci - 2 < len(early) else 0
+        else:
+            k = early or 0
+        nreads = len({c for c in (cs or ()) if 0 < c < len(data)}) + 1
+        k = nreads if k < 0 else min(k, nreads)
+        shim = _EarlyShim(proto, k, params) if k > 0 and data else None
+        if shim is None:
+            proto.set_response_params(**params)
         peer = _Writer(data, bool(scn["eof"]))
         recs = []
         final = {"exc": None}
@@ -919,12 +1024,17 @@ def _client_outcomes(w, scn, cut_sets):
                 final["exc"] = type(e).__name__ + ":" + _norm_client_err(e)
 
         a, b = net.make_pair(("10.9.9.9", 9))
-        a.protocol, b.protocol = proto, peer
+        a.protocol, b.protocol = shim or proto, peer
         b.out.policy = cs if cs is not None else "whole"
         proto.connection_made(a)
         t = loop.create_task(consume(), name="consume")
         peer.connection_made(b)
         loop.run_sim(None, vt_cap=loop.time() + 0.5, step_cap=loop.steps + 200_000)
+        early_reads = min(shim.reads, k) if shim is not None else 0
+        if shim is not None:
+            if not shim.armed:  # fewer reads than planned: the parser comes now
+                shim.arm()
+                loop.run_sim(None, vt_cap=loop.time() + 0.5, step_cap=loop.steps + 200_000)
         blocked = not t.done()
         if blocked:
             t.cancel()
@@ -935,7 +1045,7 @@ def _client_outcomes(w, scn, cut_sets):
             rej = "other:payload_error"
         outcomes.append({"msgs": tuple(tuple(r) for r in recs), "rejected": rej, "statuses": (final["exc"] or "").split(":")[0],
                          "closed": a._closed or a._closing, "exc": bool(loop.exc_contexts) or bool(net.fatal_errors),
-                         "blocked": blocked})
+                         "blocked": blocked, "early_reads": early_reads})
         loop.exc_contexts.clear()
         net.fatal_errors.clear()
         if not b._closed:
@@ -1068,13 +1178,17 @@ def run(scn, ch, log=False):
         nontrivial = any(o["msgs"] or o["rejected"] for o in outs)
         res = {
             "violations": viols, "nontrivial": bool(nontrivial),
-            "sig": f"{hash_str(scn['stream'])}|{sorted(scn['limits'].items())}|{scn['mode']}|{scn['block']}|{int(bool(scn.get('accept_upgrade')))}",
+            "sig": f"{hash_str(scn['stream'])}|{sorted(scn['limits'].items())}|{scn['mode']}|{scn['block']}|{int(bool(scn.get('accept_upgrade')))}"
+                   + (f"|early{scn['early']}" if scn.get("early") is not None else ""),
             "digest": st["digest"], "steps": st["steps"], "vtime": st["vtime"], "faults": st["faults"],
             "probes": {"segmentations": len(outs), "mode_" + scn["mode"]: 1, "side_" + scn["side"]: 1,
                        "rejected_streams": int(base_whole["rejected"] is not None),
                        "reader_paused": int(bool(st["faults"].get("pause_reading"))),
                        "upgrade_taken": int(any(m[7] is not None for m in base_whole["msgs"])),
                        "upgraded_bytes_seen": int(any(m[7] for m in base_whole["msgs"])),
+                       "early_response": int(any(o.get("early_reads") for o in outs)),
+                       "early_response_in_several_reads": int(any(o.get("early_reads", 0) >= 2 for o in outs)),
+                       "early_deliveries": sum(1 for o in outs if o.get("early_reads")),
                        "multi_member_body": int("m" in scn),
                        "multi_member_zstd": int("m" in scn and scn["m"]["coding"] == "zstd"),
                        "coded_body": int(any(any(n.lower() == b"content-encoding" for n, _ in m[2]) and m[4]
